@@ -1,0 +1,33 @@
+//go:build verif
+
+// Contracts for the verification machinery in /verif (govc). Comment-only file.
+
+package status
+
+// The unauthenticated status endpoint (C15): whatever the store and the deposit hook answer, producing the status does
+// not panic, and the cache is only touched under its mutex (C10).
+//@ guarded_by PoolStatus.cachedResp mu
+
+// the deposit hook (a function-valued field): assumed to return a total when it reports no error
+//@ funcfield PoolStatus.GetTotalDeposit(ctx) (result, err)
+//@ ensures [total] err == nil ==> result != nil
+//@ modifies nothing
+
+//@ func nodeHost
+//@ property C15
+//@ safety on
+//@ modifies nothing
+
+//@ func (*PoolStatus).getStatus
+//@ property C15
+//@ safety on
+//@ requires s != nil
+//@ ensures [answer-or-error] err == nil ==> result != nil && result.Stats != nil
+//@ modifies clock, alloc, lastActiveHosts, lastNodePeers
+//@ loop 0 invariant [response] r != nil && r.Stats != nil
+
+//@ func (*PoolStatus).Status
+//@ property C10 C15
+//@ safety on
+//@ requires s != nil && !held(s.mu)
+//@ ensures [unlocked] !held(s.mu)
